@@ -89,6 +89,7 @@ impl super::Protocol for Protocol {
     }
 
     async fn write(&self, relpath: &str, content: &[u8], write_mode: WriteMode) -> Result<()> {
+        use tokio::io::AsyncWriteExt;
         let full_path = self.full_path(relpath);
         let mut options = tokio::fs::OpenOptions::new();
         options.write(true);
@@ -100,10 +101,42 @@ impl super::Protocol for Protocol {
                 options.create(true).truncate(true);
             }
         }
-        if let Err(err) = tokio::fs::write(&full_path, content).await {
+        let mut file = match options.open(&full_path).await {
+            Ok(file) => file,
+            Err(err) => {
+                // CreateNew refuses an existing file, with one exception: a zero-length file
+                // is the leftover of an interrupted write, holds nothing, and may be completed.
+                let mut empty_leftover = false;
+                if write_mode == WriteMode::CreateNew && err.kind() == io::ErrorKind::AlreadyExists
+                {
+                    if let Ok(metadata) = tokio::fs::metadata(&full_path).await {
+                        empty_leftover = metadata.is_file() && metadata.len() == 0;
+                    }
+                }
+                if !empty_leftover {
+                    error!("Failed to open {full_path:?} for writing: {err:?}");
+                    return Err(super::Error::io_error(&full_path, err));
+                }
+                options.create_new(false).truncate(true);
+                match options.open(&full_path).await {
+                    Ok(file) => file,
+                    Err(err) => return Err(super::Error::io_error(&full_path, err)),
+                }
+            }
+        };
+        let mut result = file.write_all(content).await;
+        if result.is_ok() {
+            result = file.flush().await;
+        }
+        drop(file);
+        if let Err(err) = result {
             error!("Failed to write {full_path:?}: {err:?}");
-            if let Err(err2) = tokio::fs::remove_file(&full_path).await {
-                error!("Failed to remove {full_path:?}: {err2:?}");
+            // Only in CreateNew mode is it known that the file was created by this call (or
+            // was empty before it), so only then is the partial file ours to remove.
+            if write_mode == WriteMode::CreateNew {
+                if let Err(err2) = tokio::fs::remove_file(&full_path).await {
+                    error!("Failed to remove {full_path:?}: {err2:?}");
+                }
             }
             Err(super::Error::io_error(&full_path, err))
         } else {
